@@ -201,8 +201,9 @@ func vxRefBind(shapes []vxShape, sel vxSel) vxBound {
 		pat = vxChipDefs[0].Full // the class stands for the '-' of the name (see vxPattern)
 	}
 	hit := -1
+	anchored := strings.HasPrefix(sel.Pattern, "anchored")
 	for i := range shapes {
-		if strings.Contains(vxChipDefs[i].Full, pat) {
+		if (anchored && vxChipDefs[i].Full == pat) || (!anchored && strings.Contains(vxChipDefs[i].Full, pat)) {
 			hit = i
 		}
 	}
@@ -259,7 +260,12 @@ type vxOutcome struct {
 	Panic  string
 	Bound  vxBound
 	Detail string // anything else worth reporting (I/O mismatch, registry mismatch)
+	Rebind string // vxRebind: how a second InitializeObjects over the same loaded configuration differs from the first ("" = same)
 }
+
+// vxRebind: bind every entry twice in one process without reloading the configuration (what `fan2go fan --id X init` does:
+// it resolves the entry for the command and then initialises all objects); both bindings must agree.
+var vxRebind bool
 
 var vxPtr = regexp.MustCompile(`0x[0-9a-f]{6,}`)
 
@@ -365,6 +371,25 @@ func vxRunReal(c *vxCase) vxOutcome {
 	} else {
 		o.Bound, o.Detail = vxReadSensor(vxSensorID)
 	}
+	if vxRebind {
+		fm2, err2, p2 := vxInit()
+		switch {
+		case p2 != "":
+			o.Rebind = "second InitializeObjects panicked: " + p2
+		case err2 != nil:
+			o.Rebind = "second InitializeObjects failed: " + err2.Error()
+		default:
+			var b2 vxBound
+			if c.Sel.Kind == "fan" {
+				b2, _ = vxReadFan(vxFanID, fm2)
+			} else {
+				b2, _ = vxReadSensor(vxSensorID)
+			}
+			if b2 != o.Bound {
+				o.Rebind = fmt.Sprintf("first binding %+v, second binding %+v", o.Bound, b2)
+			}
+		}
+	}
 	return o
 }
 
@@ -420,6 +445,9 @@ func (st *vxState) check(c *vxCase, exp vxBound, o vxOutcome) string {
 	}
 	if o.Detail != "" {
 		st.violate(c, "C17 registry inconsistent after InitializeObjects", o.Detail)
+	}
+	if o.Rebind != "" {
+		st.violate(c, "C17 second binding of the same entry in one process differs ("+kind+" entry)", o.Rebind)
 	}
 	if kind == "fan" {
 		if b.Rpm != exp.Rpm || b.Pwm != exp.Pwm || b.En != exp.En {
@@ -853,6 +881,8 @@ var vxBusFamilies = map[string][]vxChipDef{
 	"hid":          {{"corsaircpro", 6, 1, "corsaircpro-hid-3-1", 3}, {"corsaircpro", 6, 3, "corsaircpro-hid-1-3", 1}, {"corsaircpro", 6, 2, "corsaircpro-hid-3-2", 3}, {"corsaircpro", 6, 1, "corsaircpro-hid-2-1", 2}},
 	"isa":          {{"nct6798", 1, 0x290, "nct6798-isa-0290", 0}, {"nct6798", 1, 0x290, "nct6798-isa-1290", 1}, {"nct6798", 1, 0xa30, "nct6798-isa-0a30", 0}, {"nct6798", 1, 0x029, "nct6798-isa-0029", 0}},
 	"pci":          {{"amdgpu", 2, 0x300, "amdgpu-pci-0300", 0}, {"amdgpu", 2, 0x300, "amdgpu-pci-1300", 1}, {"amdgpu", 2, 0x030, "amdgpu-pci-0030", 0}, {"amdgpu", 2, 0x003, "amdgpu-pci-3003", 3}},
+	// names that are prefixes of each other (a hub on port 1 and hubs on ports 10, 11, 12): only anchored patterns name one chip
+	"hid-prefix": {{"corsaircpro", 6, 1, "corsaircpro-hid-3-1", 3}, {"corsaircpro", 6, 10, "corsaircpro-hid-3-10", 3}, {"corsaircpro", 6, 11, "corsaircpro-hid-3-11", 3}, {"corsaircpro", 6, 12, "corsaircpro-hid-3-12", 3}},
 	"acpi+virtual": {{"acpitz", 5, 0, "acpitz-acpi-0", 0}, {"acpitz", 5, 0, "acpitz-acpi-1", 1}, {"thinkpad", 4, 0, "thinkpad-virtual-0", 0}, {"thinkpad", 4, 7, "thinkpad-virtual-2", 2}},
 }
 
@@ -884,6 +914,8 @@ func TestVX_C17bus(t *testing.T) {
 	}
 	var rc busCase
 	replay := mc.ReplayCase(&rc)
+	vxRebind = true
+	defer func() { vxRebind = false }()
 	idx := 0
 	var n int64
 	for _, fam := range fams {
@@ -892,6 +924,9 @@ func TestVX_C17bus(t *testing.T) {
 			// rotate: the named chip is chip 0
 			rot := append(append([]vxChipDef{}, defs[target:]...), defs[:target]...)
 			for _, sel := range sels {
+				if fam == "hid-prefix" && target == 0 && !strings.HasPrefix(sel.Pattern, "anchored") {
+					continue // the unanchored name of this chip also matches the chips whose names it is a prefix of
+				}
 				for _, order := range perms {
 					idx++
 					if replay {
